@@ -104,8 +104,16 @@ def gen_flowir_package(rr, idx):
                 'workflowAttributes': {'repeatInterval': rr.choice([5, 7])}}
         if 'px' in platforms and rr.random() < 0.6:
             bp['px'] = {'global': {'resourceManager': {'config': {'walltime': 480.0}}}}
+        if rr.random() < 0.4:
+            bp.setdefault('default', {}).setdefault('global', {}).setdefault('workflowAttributes', {})['shutdownOn'] = ['KnownIssue']
         if bp:
             doc['blueprint'] = bp
+    # explicit empty values switch an inherited (blueprint or built-in) value off: they are part of the description
+    for c in doc['components']:
+        if rr.random() < 0.25:
+            c.setdefault('workflowAttributes', {})['restartHookOn'] = []
+        if rr.random() < 0.2:
+            c.setdefault('workflowAttributes', {})['shutdownOn'] = []
     for c in doc['components']:
         if 'px' in platforms and rr.random() < 0.3:
             c['override'] = {'px': {'variables': {'cv': 'px-%s' % c['variables']['cv']}}}
@@ -151,6 +159,12 @@ def gen_dsl_package(rr, idx):
         args = {'message': 'msg %d' % i, 'other': 'UV[foo=%(foo)s] UV[bar=%(bar)s]'}
         if i > 0 and rr.random() < 0.7:
             args['message'] = '<%s>:ref' % steps[rr.randrange(i)]
+            if rr.random() < 0.5:
+                # one producer consumed through several distinct references (files of its directory, other methods)
+                p = steps[rr.randrange(i)]
+                extra = rr.sample(['<%s>/out/a.csv:ref' % p, '<%s>/out/b.csv:ref' % p, '<%s>:output' % p,
+                                   '<%s>/log.txt:output' % p, '<%s>:ref' % p], rr.choice([2, 3, 4]))
+                args['message'] = ' '.join([args['message']] + [x for x in extra if x != args['message']])
         if rr.random() < 0.6:
             # explicit environments: equal mappings passed by several steps (their key order is noise) must end up
             # as one shared environment with one name
